@@ -689,7 +689,10 @@ def input_key():
         files += [os.path.join(root, n) for n in names if n.endswith(".h")]
     files += [os.path.join(PYDIR, n) for n in ("ast_nodes.py", "enums.py", "structs.py", "functions.py", "__init__.py")]
     for f in sorted(files):
-        hs.update(f.encode() + b"\0")
+        # names relative to the tree, so that an identical copy of the tree (a scratch worktree of another
+        # property's mutation run) shares the key
+        rel = os.path.relpath(f, REPO) if f.startswith(REPO + os.sep) else os.path.basename(f)
+        hs.update(rel.encode() + b"\0")
         try:
             with open(f, "rb") as fh:
                 hs.update(fh.read())
